@@ -666,13 +666,20 @@ std::vector<uint8_t> encode(const model::MLib& m, const Choices& c, bool* expect
             e.rec0(ENDEL);
         }
         for (auto& r : cell.refs) {
-            bool lattice = (r.rep.type == model::REP_REGULAR || r.rep.type == model::REP_RECT) && c.aref &&
-                           r.rep.cols <= 32767 && r.rep.rows <= 32767;
+            // COLROW is a pair of signed 16-bit counts: a larger array is a set of AREF blocks (very large arrays
+            // are always written that way: one SREF per instance would only be bulk)
+            bool lattice = (r.rep.type == model::REP_REGULAR || r.rep.type == model::REP_RECT) &&
+                           (c.aref || r.rep.cols * r.rep.rows > 2000);
             Pt v1 = r.rep.type == model::REP_RECT ? Pt{r.rep.sp.x, 0} : r.rep.v1;
             Pt v2 = r.rep.type == model::REP_RECT ? Pt{0, r.rep.sp.y} : r.rep.v2;
             std::vector<Pt> origins;
+            std::vector<std::pair<uint64_t, uint64_t>> blocks;
             if (lattice) {
-                origins.push_back(r.origin);
+                for (uint64_t c0 = 0; c0 < r.rep.cols; c0 += 32767)
+                    for (uint64_t r0 = 0; r0 < r.rep.rows; r0 += 32767) {
+                        origins.push_back(Pt{r.origin.x + (dg_t)c0 * v1.x + (dg_t)r0 * v2.x, r.origin.y + (dg_t)c0 * v1.y + (dg_t)r0 * v2.y});
+                        blocks.push_back({std::min<uint64_t>(r.rep.cols - c0, 32767), std::min<uint64_t>(r.rep.rows - r0, 32767)});
+                    }
             } else {
                 uint64_t cols = r.rep.type ? r.rep.cols : 1, rows = r.rep.type ? r.rep.rows : 1;
                 for (uint64_t i = 0; i < cols; i++)
@@ -680,16 +687,17 @@ std::vector<uint8_t> encode(const model::MLib& m, const Choices& c, bool* expect
                         origins.push_back(Pt{r.origin.x + (dg_t)i * v1.x + (dg_t)j * v2.x,
                                              r.origin.y + (dg_t)i * v1.y + (dg_t)j * v2.y});
             }
-            for (auto& o : origins) {
+            for (size_t oi = 0; oi < origins.size(); oi++) {
+                const Pt& o = origins[oi];
                 e.rec0(lattice ? AREF : SREF);
                 put_elflags();
                 e.rec_str(SNAME, r.target);
                 put_strans(r.xrefl, r.mag, r.rot_deg);
                 if (lattice) {
-                    e.rec_i16(COLROW, {(uint16_t)r.rep.cols, (uint16_t)r.rep.rows});
-                    e.rec_i32(XY, {grid(o.x), grid(o.y), grid(o.x + (dg_t)r.rep.cols * v1.x),
-                                   grid(o.y + (dg_t)r.rep.cols * v1.y), grid(o.x + (dg_t)r.rep.rows * v2.x),
-                                   grid(o.y + (dg_t)r.rep.rows * v2.y)});
+                    dg_t bc = (dg_t)blocks[oi].first, br = (dg_t)blocks[oi].second;
+                    e.rec_i16(COLROW, {(uint16_t)bc, (uint16_t)br});
+                    e.rec_i32(XY, {grid(o.x), grid(o.y), grid(o.x + bc * v1.x), grid(o.y + bc * v1.y), grid(o.x + br * v2.x),
+                                   grid(o.y + br * v2.y)});
                 } else {
                     e.rec_i32(XY, {grid(o.x), grid(o.y)});
                 }
